@@ -133,6 +133,15 @@ func handleHTTPIO(q req) resp {
 				}
 				return cres{code: 1}
 			}
+			if q.N == 2 {
+				// the same response met by a two-way call of FStandardClient (what generated clients do)
+				cl := frugal.NewFStandardClient(frugal.NewFServiceProvider(hcClient, protoFactory))
+				err := cl.Call(ctx, "ping", thrift.NewTApplicationException(0, ""), thrift.NewTApplicationException(0, ""))
+				if err != nil {
+					return cres{code: classifyHC(err), msg: err.Error()}
+				}
+				return cres{code: 0}
+			}
 			tp, err := hcClient.Request(ctx, payload)
 			if err != nil {
 				return cres{code: classifyHC(err), msg: err.Error()}
